@@ -328,27 +328,57 @@ let gen_cfg_line (g : genst) ~owned_ok : string * config =
       (if owned then "owned" else "plain") ctor (csv init) in
   (line, { c_init = List.map n_of_int init; c_worker = (st = 3); c_heap = (store = "heap"); c_owned = owned })
 
-(* model rand <seed> <count> <min_ops> <max_ops> : histories on stdout *)
-let gen_rand seed count lo hi =
+(* model rand <seed> <count> <min_ops> <max_ops> : histories on stdout.
+   variants=true: every history is emitted four times, for {conc,local} x {heap,stack} (C13), without drop/resplit operations *)
+let gen_rand ?(variants = false) seed count lo hi =
   seed_rng seed;
   for h = 1 to count do
     let g = { nextv = 100 } in
     let (line, cfg) = gen_cfg_line g ~owned_ok:true in
-    Printf.printf "# rand seed=%d n=%d\n%s\n" seed h line;
-    match init cfg with
-    | None -> ()
-    | Some s0 ->
-      let s = ref s0 in
-      let n = lo + rnd (hi - lo + 1) in
-      (try
-         for _ = 1 to n do
-           if !s.freed then raise Exit;
-           let t = gen_op g !s in
-           print_endline t;
-           let (s', _) = step !s (parse_op t) in
-           s := s'
-         done
-       with Exit -> ())
+    let (line, cfg) =
+      if variants then begin
+        let words = String.split_on_char ' ' line in
+        let words = List.map (fun w -> if String.length w > 6 && String.sub w 0 6 = "store=" then "store=stack" else w) words in
+        let len = List.length cfg.c_init in
+        let maxlen = if cfg.c_owned then 5 else 16 in
+        let ok = List.mem len [1; 2; 3; 4; 5; 7; 8; 13; 16] && len <= maxlen in
+        if ok then (String.concat " " words, { cfg with c_heap = false })
+        else begin
+          let init = List.filteri (fun i _ -> i < (if cfg.c_owned then 4 else 8)) cfg.c_init in
+          let words = List.map (fun w -> if String.length w > 5 && String.sub w 0 5 = "init=" then "init=" ^ csv (List.map int_of_n init) else w) words in
+          (String.concat " " words, { cfg with c_heap = false; c_init = init })
+        end
+      end else (line, cfg) in
+    let ops = ref [] in
+    (match init cfg with
+     | None -> ()
+     | Some s0 ->
+       let s = ref s0 in
+       let n = lo + rnd (hi - lo + 1) in
+       (try
+          for _ = 1 to n do
+            if !s.freed then raise Exit;
+            let t = gen_op g !s in
+            let w = List.hd (String.split_on_char ' ' t) in
+            if not (variants && (w = "drop" || w = "dropbuf" || w = "resplit")) then begin
+              ops := t :: !ops;
+              let (s', _) = step !s (parse_op t) in
+              s := s'
+            end
+          done
+        with Exit -> ()));
+    let ops = List.rev !ops in
+    if variants then
+      List.iter (fun (k, st) ->
+          let words = List.map (fun w ->
+              if String.length w > 5 && String.sub w 0 5 = "kind=" then "kind=" ^ k
+              else if String.length w > 6 && String.sub w 0 6 = "store=" then "store=" ^ st else w) (String.split_on_char ' ' line) in
+          Printf.printf "# randv seed=%d n=%d variant=%s/%s\n%s\n" seed h k st (String.concat " " words);
+          List.iter print_endline ops) [("conc", "heap"); ("local", "heap"); ("conc", "stack"); ("local", "stack")]
+    else begin
+      Printf.printf "# rand seed=%d n=%d\n%s\n" seed h line;
+      List.iter print_endline ops
+    end
   done
 
 (* ---------- exhaustive transition coverage (G-exh) over the index / cache / detached layer ---------- *)
@@ -452,5 +482,6 @@ let () =
   | _ :: "seq" :: files -> List.iter run_file files
   | _ :: "spec" :: files -> List.iter spec_file files
   | [_; "rand"; seed; count; lo; hi] -> gen_rand (int_of_string seed) (int_of_string count) (int_of_string lo) (int_of_string hi)
+  | [_; "randv"; seed; count; lo; hi] -> gen_rand ~variants:true (int_of_string seed) (int_of_string count) (int_of_string lo) (int_of_string hi)
   | [_; "bfs"; maxlen; limit] -> gen_bfs (int_of_string maxlen) (int_of_string limit)
   | _ -> prerr_endline "usage: model seq <history-file>... | rand <seed> <count> <min> <max> | bfs <maxlen> <limit>"; exit 2
